@@ -489,8 +489,12 @@ class AbstractInversion:
             if self.settings.force_edge_pixels_to_zeros:
                 if self.settings.force_edge_image_pixels_to_zeros:
                     ids_zeros = np.unique(
-                        np.append(
-                            self.mapper_edge_pixel_list, self.mapper_zero_pixel_list
+                        np.concatenate(
+                            [np.asarray(self.mapper_edge_pixel_list, dtype="int")]
+                            + [
+                                np.asarray(zero_pixels, dtype="int")
+                                for zero_pixels in self.mapper_zero_pixel_list
+                            ]
                         )
                     )
                 else:
